@@ -765,11 +765,11 @@ _FLOWS = {}
 
 
 def get_flow(model, fi):
-    key = (id(model), fi.qual)
-    fl = _FLOWS.get(key)
+    flows = model.__dict__.setdefault("_flows", {})  # on the model object itself: an id() key could be reused
+    fl = flows.get(fi.qual)
     if fl is None:
         fl = Flow(model, fi)
-        _FLOWS[key] = fl
+        flows[fi.qual] = fl
     return fl
 
 
